@@ -8,6 +8,15 @@ P = {
  "C01": (True, "exploration", "runtime monitoring: step-budget hooks + Go deadlock detector + crash-isolating worker processes over prefix/fragment-mutation/bounded-exhaustive/random inputs",
          "Every input is parsed through three entry points in worker processes; any process death, recovered panic, runtime deadlock, step-budget or CPU-budget overrun is a violation. Bounded-exhaustive over the fragment alphabet (<=3 quick, <=5 thorough), every prefix and single-fragment mutation of the corpus; sampled beyond that.",
          "Trusts the verif hooks for step counts (CPU budget is the fallback when a hook is lost); inputs >64 KiB and nesting >2000 not exercised.", "DESIGN.md#c01"),
+ "C13": (True, "exploration", "runtime monitoring: exhaustive code-point / boundary-pair sweep with inert-grammar monitor and standard decoders (HTML5, ECMAScript, CSS Syntax 3, RFC 3986) as round-trip oracles",
+         "Every Unicode scalar value, every invalid byte and every pair over a 64-symbol boundary alphabet goes through all five escapers (exhaustive); random long strings on top. Output must match the inert grammar, the standard decoder must recover the input, and escaping must be per-character.",
+         "Decoders are the harness's implementations of the published algorithms; css NUL exempt (CSS cannot represent it); css terminator defect recorded as known finding with re-verified predicate.", "DESIGN.md#c13"),
+ "C15": (True, "exploration", "runtime monitoring: relational oracles on Coerce* return values over a Go-value zoo, all numeric carriers of boundary integers, exhaustive int16, random float64 bit patterns and numeric-string spellings",
+         "Totality (panic = violation), fallback for unsupported kinds, identical string/number/truth value across every numeric carrier, wrapper transparency, bit-exact float64->string->number, plain-integer printing; int16 range exhaustive, floats sampled.",
+         "Random floats are a sample of 2^64 bit patterns; user types limited to the zoo's shapes.", "DESIGN.md#c15"),
+ "C16": (True, "exploration", "runtime monitoring: reflection-computed expectation (element / error / element-or-error) for GetAttr over container x key x argument zoo, recorded Iterate callback traces checked for order, exactly-once and loop identities, cross-checked with Len/Contains/Is*",
+         "Full product of the container, key and argument zoos (about 50k calls) plus template-level lookups; iteration traces at lengths 0..8 through 0..2 pointer levels with early breaks. A panic, a wrong element, a missing error or a trace anomaly is a violation.",
+         "User types limited to the zoo's shapes; only one pointer level is required to work.", "DESIGN.md#c16"),
 }
 NOT_BUILT_REASON = "check not built yet in this round (planned: see DESIGN.md section for this property)"
 
